@@ -441,6 +441,24 @@ def run_fresh(ctx):
     ctx.floor(rule, 17)
 
 
+def _by_const_index(g, stores):
+    """(constant index, store) for stores `(*p)[k] = ..`; textual order when an index is not a constant"""
+    out = []
+    for n, w in enumerate(sorted(stores, key=lambda w: (w[0], w[1]))):
+        pe = w[2].place[1][-1]
+        k = None
+        if isinstance(pe, tuple) and pe[0] == "cix" and not pe[2]:
+            k = pe[1]
+        elif isinstance(pe, tuple) and pe[0] == "ix":
+            e = g.eb.local(pe[1])
+            if e[0] == "lit" and isinstance(e[1], int):
+                k = e[1]
+        out.append((k, w))
+    if any(k is None for k, _ in out) or sorted(k for k, _ in out) != list(range(len(out))):
+        return list(enumerate(w for _, w in out))
+    return sorted(out, key=lambda kw: kw[0])
+
+
 def run_algebra(ctx):
     rule = "R-C06.A"
     # seed helpers
@@ -578,13 +596,14 @@ def run_algebra(ctx):
             good = BIT(sel[0][1][2][0]) and SDS(sel[0][1][2][1]) and \
                 Index(CBS2, Lit(0))(csel[0][1][2][0]) and Index(CBS2, Lit(1))(csel[0][1][2][1]) and BIT(csel[0][1][2][2]) and \
                 cv[0][1][2][0] == sel[0][1] and Local(2)(cv[0][1][2][2]) and \
-                Call("zero", Local(2))(vsel[0][1][2][0]) and Field(CW, "value")(vsel[0][1][2][1]) and CB(vsel[0][1][2][2]) and \
+                Call("zero", Local(2))(vsel[0][1][2][0]) and Field(CW, "value")(vsel[0][1][2][1]) and (CB(vsel[0][1][2][2]) or vsel[0][1][2][2] == csel[0][1]) and \
                 S(Un("Not", Local(1)))(neg[0][1][2][1])
         # stores through the &mut parameters, and their order relative to the value selection
         wk = [(bi, si) for bi, si, s in b.iter_stmts() if s.kind == "assign" and s.place == (3, ("*",))]
         wc = [(bi, si) for bi, si, s in b.iter_stmts() if s.kind == "assign" and s.place == (4, ("*",))]
         if good:
-            good = len(wk) == 1 and len(wc) == 1 and b.dominates(csel[0][0], wc[0][0]) and b.dominates(wc[0][0], vsel[0][0]) and \
+            good = len(wk) == 1 and len(wc) == 1 and b.dominates(csel[0][0], wc[0][0]) and \
+                (b.dominates(wc[0][0], vsel[0][0]) or vsel[0][1][2][2] == csel[0][1]) and \
                 all(b.dominates(x[0], wc[0][0]) for x in cx + bx) and b.dominates(cv[0][0], wk[0][0])
             vk = g.eb.rvalue(b.blocks[wk[0][0]].stmts[wk[0][1]].rv)
             vc = g.eb.rvalue(b.blocks[wc[0][0]].stmts[wc[0][1]].rv)
@@ -664,7 +683,7 @@ def run_algebra(ctx):
                and len(s.place[1]) == 2]
         good = len(wcb) == 2
         if good:
-            for k, (bi, si, s) in enumerate(sorted(wcb, key=lambda w: (w[0], w[1]))):
+            for k, (bi, si, s) in _by_const_index(g, wcb):
                 ex = g.eb.rvalue(s.rv)
                 keep_t = Call("conditional_select", t(k, 0), t(k, 1), BIT)
                 good = good and Bin("BitXor", keep_t, Bin("BitAnd", Call("conditional_select"), Any(), commutative=True), commutative=True)(ex)
@@ -690,7 +709,7 @@ def run_algebra(ctx):
               and len(s.place[1]) == 2]
         good = len(wk) == 2 and len(cv) == 2
         if good:
-            for k, (bi, si, s) in enumerate(sorted(wk, key=lambda w: (w[0], w[1]))):
+            for k, (bi, si, s) in _by_const_index(g, wk):
                 good = good and Field(lambda x: x == cv[k][1], name="0")(g.eb.rvalue(s.rv))
         req(ctx, rule, K + "keys-advance", good, "keys[b] = convert(...).0", "the keys are not advanced to the converted seeds", loc=f.loc)
     except Skip:
